@@ -375,7 +375,13 @@ func (g *gen) plantDup(roots []*gnode) {
 	if g.r.Bool() {
 		u, v = v, u
 	}
+	if u.effID() == 48 && !(u.name == v.name && g.r.Bool()) { // never write the empty string as an explicit id
+		u.id = g.nextID
+		g.nextID++
+	}
 	switch {
+	case u.effID() == 48: // only left when both are unnamed: two nodes without name and id
+		u.id, v.id = -1, -1
 	case u.name == v.name && g.r.Chance(50):
 		u.id, v.id = -1, -1 // two nodes of one type without ids
 	case g.r.Chance(30) && u.name != 48:
@@ -511,7 +517,7 @@ func Gen(r *sx.Rng, idx int, focus string) sx.Tree {
 				if n.h == nil {
 					n.h = g.handler()
 				}
-				if m := pickNode(g, roots); m != nil {
+				if m := pickNode(g, roots); m != nil && m.effID() != 48 {
 					n.h.id = m.effID()
 				}
 			}
